@@ -190,32 +190,35 @@ Canon(S) == [S EXCEPT !.age = IF S.mt THEN S.age ELSE conf.age0,
 (* ck2 = session cookie in b's jar after the request, dl2 = deadline that cookie carries,           *)
 (* xc2 = exposed cookies in b's jar after the request.  relax = clauses switched off (always {}     *)
 (* except when the trace runner diagnoses a rejection)                                              *)
-SaveG(ck2, dl2, xc2, relax) ==
+\* the clauses a save must satisfy (names = the clauses the trace runner can switch off for diagnosis)
+GCookieGone(ck2) == ck2.kind = "N" \/ (ck2 = jar[cur.b] /\ ~(cur.ok /\ cur.ck.kind = "C"))
+GKind(ck2)       == ck2.kind \in KindsOK
+GFresh(ck2)      == (LoadedI /\ ~NewSess /\ ck2.id = cur.ck.id) \/ ck2.id \notin (seen \ cur.fresh)         \* FreshSid
+GSame(ck2, dl2)  == ck2.id \in DOMAIN issued => (Canon(issued[ck2.id].S) = Canon(cur.S) /\ issued[ck2.id].dl = dl2)
+SaveGuard(ck2, dl2, relax) ==
+    IF IsEmpty(cur.S)
+    THEN ("Cookie" \in relax \/ GCookieGone(ck2))
+    ELSE /\ ck2.kind \in {"C", "I"}
+         /\ ("Kind" \in relax \/ GKind(ck2))
+         /\ ("Deadline" \in relax \/ DeadlineOK(dl2))
+         /\ IF ck2.kind = "I" THEN ("FreshSid" \in relax \/ GFresh(ck2))
+                              ELSE ("Cookie" \in relax \/ GSame(ck2, dl2))     \* the same cookie string designates the same content
+
+SaveEffect(ck2, dl2, xc2) ==
     LET b    == cur.b
         S    == cur.S
         id0  == cur.ck.id
         kill == IF LoadedI /\ ~(~IsEmpty(S) /\ ck2.kind = "I" /\ ck2.id = id0) THEN {id0} ELSE {}
     IN
-    /\ cur.ph \in {"ops", "saved"}
     /\ IF IsEmpty(S)
-       THEN /\ IF "Cookie" \in relax THEN TRUE
-               ELSE (ck2.kind = "N" \/ (ck2 = jar[b] /\ ~(cur.ok /\ cur.ck.kind = "C")))
-            /\ store' = Drop(store, kill)
+       THEN /\ store' = Drop(store, kill)
             /\ issued' = issued
             /\ left' = [left EXCEPT ![b] = NoLeft]
             /\ seen' = seen
-       ELSE /\ ck2.kind \in {"C", "I"}
-            /\ IF "Kind" \in relax THEN TRUE ELSE ck2.kind \in KindsOK
-            /\ IF "Deadline" \in relax THEN TRUE ELSE DeadlineOK(dl2)
-            /\ IF ck2.kind = "I"
-               THEN /\ IF "FreshSid" \in relax THEN TRUE
-                       ELSE ((LoadedI /\ ~NewSess /\ ck2.id = id0) \/ ck2.id \notin (seen \ cur.fresh))    \* FreshSid
-                    /\ store' = Put(Drop(store, kill), ck2.id, [S |-> S, dl |-> dl2])
+       ELSE /\ IF ck2.kind = "I"
+               THEN /\ store' = Put(Drop(store, kill), ck2.id, [S |-> S, dl |-> dl2])
                     /\ issued' = issued
-               ELSE \* the same cookie string designates the same content
-                    /\ IF "Cookie" \in relax \/ ck2.id \notin DOMAIN issued THEN TRUE
-                       ELSE (Canon(issued[ck2.id].S) = Canon(S) /\ issued[ck2.id].dl = dl2)
-                    /\ store' = Drop(store, kill)
+               ELSE /\ store' = Drop(store, kill)
                     /\ issued' = IF ck2.id \in DOMAIN issued THEN issued ELSE Put(issued, ck2.id, [S |-> S, dl |-> dl2])
             /\ left' = [left EXCEPT ![b] = [has |-> TRUE, S |-> S, dl |-> dl2]]
             /\ seen' = seen \cup {ck2.id}
@@ -225,6 +228,11 @@ SaveG(ck2, dl2, xc2, relax) ==
     \* b's jar is in step with the server again once the server has (re)sent the session cookie
     /\ honest' = [b2 \in Browsers |-> IF b2 = b THEN (cur.hon \/ ck2 # jar[b]) ELSE IF b2 \in Sharers THEN FALSE ELSE honest[b2]]
     /\ UNCHANGED <<conf, now>>
+
+SaveG(ck2, dl2, xc2, relax) ==
+    /\ cur.ph \in {"ops", "saved"}
+    /\ SaveGuard(ck2, dl2, relax)
+    /\ SaveEffect(ck2, dl2, xc2)
 
 Save(ck2, dl2, xc2) == cur.ph = "ops" /\ SaveG(ck2, dl2, xc2, {}) /\ cur' = IdleCur
 
